@@ -150,8 +150,19 @@ class BaseTaskPool:
         if value < 0:
             raise ValueError("Pool size can not be less than 0")  # noqa: TRY003
         if self._pool_size is None or self._pool_size == inf:
-            # Nothing can be waiting for room in a new or an unbounded pool.
-            free = value - len(self._tasks_running) - len(self._tasks_cancelled)
+            # A new or an unbounded pool is occupied by its tasks and by the
+            # spawners that were handed a place (woken up while the pool was
+            # still bounded), but have not resumed to start their task yet.
+            waiters = self._enough_room._waiters or ()
+            handed_over = sum(
+                1 for fut in waiters if fut.done() and not fut.cancelled()
+            )
+            free = (
+                value
+                - len(self._tasks_running)
+                - len(self._tasks_cancelled)
+                - handed_over
+            )
         else:
             free = (
                 self._enough_room._value
